@@ -175,7 +175,9 @@ def phaseA_worker(args):
                         steps = m.parse(rule, s)["steps"]
                     except (Drop, rdebug.Unsupported, RecursionError):
                         # too expensive / dynamically ill-formed / unsupported: never run, never judged
+                        # (the case index still advances: variants of one grammar are aligned by it)
                         ndropped += 1
+                        ci += 1
                         continue
                     cases.append(("u%dc%d" % (uid, ci), rule, s, 200 * steps + 100000))
                     ci += 1
